@@ -41,7 +41,7 @@ SPEC = dict(
                  "code of packages that are not rewritten (index, lib/*) runs atomically between points",
                  "virtual time (testing/synctest): timers fire only when no thread is enabled"],
 )
-CLAIMED = False
+CLAIMED = True
 MANIFEST = dict(
     level="exploration", engine="sched",
     technique="stateless model checking of the real implementation: controlled scheduler over real goroutines, exhaustive preemption-bounded DFS of interleavings, history oracle per execution",
